@@ -74,3 +74,7 @@ package sub
 //@   ensures !cl ==> cast("*context", result0).recvQLen == s.master.recvQLen
 //@   ensures !cl ==> cast("*context", result0).recvExpire == s.master.recvExpire
 //@   ensures !cl ==> cap(cast("*context", result0).recvQ) == s.master.recvQLen && len(cast("*context", result0).subs) == 0
+//@
+//@ func (*context).unsubscribe
+//@   ensures cap(c.recvQ) == c.recvQLen || c.recvQ == old(c.recvQ)
+//@   ensures c.recvQLen == old(c.recvQLen)
